@@ -417,6 +417,12 @@ func regexLiterals(fd *ast.FuncDecl) []string {
 				set["<"+exprString(c.Args[0])+">"] = true
 			}
 		}
+		// a pattern handed as a string to a helper that compiles it: any string literal anchored with ^
+		if bl, ok := n.(*ast.BasicLit); ok && bl.Kind == token.STRING {
+			if lit := strings.Trim(bl.Value, "`\""); strings.HasPrefix(lit, "^") {
+				set[lit] = true
+			}
+		}
 		if id, ok := n.(*ast.Ident); ok {
 			for k, v := range pkgRegexVars {
 				if strings.HasSuffix(k, "."+id.Name) && pkgOfFunc[fd] == strings.TrimSuffix(k, "."+id.Name) {
